@@ -13,7 +13,7 @@ from mc.runner import Stats
 ID = "C58"
 LEVEL = "model_checking"
 TECHNIQUE = "explicit-state BFS over event histories on the real ClientService, observational reference oracle"
-RULE = ("BFS over histories of startService / stopService / whenConnected(None|1|2) / attempt succeeds / "
+RULE = ("BFS over histories of startService / stopService / whenConnected(None|1|2|3) / attempt succeeds / "
         "attempt fails / prepareConnection Deferred fires ok|fail / connectionLost on any open transport / "
         "clock to next retry / clock half-way, executed on a real ClientService for every configuration "
         "(prepareConnection in {absent, ok, raises, closes-then-raises, Deferred}, endpoint answering "
@@ -23,8 +23,8 @@ RULE = ("BFS over histories of startService / stopService / whenConnected(None|1
         "(connection / failure limit / stop), stop Deferred vs. open connections, no exception from any event. "
         "non-trivial = distinct canonical states with a pending waiter, retry, prepare, closing connection, "
         "pending stop or abandoned connection")
-BOUNDS = {"quick": "depth 7 (async endpoint) / 8 (sync endpoint scripts), <=2 pending waiters, 38 configurations",
-          "thorough": "depth 9 / 10, <=2 pending waiters, 38 configurations"}
+BOUNDS = {"quick": "every history of <= 8 events, <= 2 pending waiters at a time, 38 configurations",
+          "thorough": "every history of <= 11 events, <= 2 pending waiters at a time, 38 configurations"}
 ASSUMPTIONS = [
     "fake endpoint: connect() returns a Deferred that the harness fires, fails, leaves pending, or that is "
     "already fired (sync scripts); cancelling it fails it synchronously (Deferred semantics)",
@@ -34,14 +34,17 @@ ASSUMPTIONS = [
     "canonical state = reference facts + automat state name, failedAttempts, remaining-failure counters and "
     "timer offsets read defensively from private attributes (hash only, never the verdict); fired waiters "
     "and completed stops are dropped",
+    "known divergences (connection lost during prepareConnection, loss of a rejected connection taken for the "
+    "current one, stopService re-entered from a callback) are reported and not explored further; the other "
+    "known findings are reported and exploration continues with the forgotten connection tracked separately",
     "ambiguities resolved leniently: a dropped connection may or may not count as a consecutive failure, a "
     "stop may or may not reset the count, a waiter created while connected may fire now or at the next "
     "connection, a connection on which loseConnection was called is not counted as a second open connection",
 ]
 LEVEL_TEXT = ("Every history of the stated alphabet up to the depth bound is executed on the real "
               "ClientService; states are merged by a canonical hash; the invariant is evaluated after every transition.")
-MIN = {"quick": {"states": 20000, "transitions": 150000, "nontrivial": 15000, "outcomes": 14},
-       "thorough": {"states": 100000, "nontrivial": 70000, "outcomes": 14}}
+MIN = {"quick": {"states": 42000, "transitions": 135000, "nontrivial": 41000, "outcomes": 18},
+       "thorough": {"states": 160000, "transitions": 545000, "nontrivial": 158000, "outcomes": 18}}
 
 P = "ClientService:"
 # known-defect family: a connection whose prepareConnection failed / was cancelled is forgotten by the service
@@ -129,13 +132,12 @@ class Transport:
 
 
 class Waiter:
-    __slots__ = ("L", "fails", "stop_seen", "fired", "excused", "reent", "d", "gen")
+    __slots__ = ("L", "fails", "stop_seen", "fired", "excused", "d", "gen")
 
     def __init__(self, L, stop_seen, gen):
         self.L, self.fails, self.stop_seen = L, 0, stop_seen
         self.fired = []
         self.excused = False
-        self.reent = False
         self.d = None
         self.gen = gen
 
@@ -475,7 +477,6 @@ class St:
         re = self.cfg["reenter"]
         if re and w.gen == 0 and self.in_event is not None and self.in_event[0] != "wc":
             # re-enter the service from the callback (only when fired from inside another event)
-            phase = self.phase()
             if re == "wc":
                 try:
                     self.new_waiter(None, gen=1)
@@ -740,7 +741,7 @@ def configs():
 
 
 def depth_for(cfg, tier):
-    return 9 if tier == "quick" else 11
+    return 8 if tier == "quick" else 11
 
 
 def shards(tier, seed):
@@ -755,14 +756,16 @@ def run_shard(cfg, tier, seed):
     def inv(st, hist):
         for sig, detail in st.soft:
             stats.violation(sig, detail, {"history": list(hist), "config": cfg})
+        # outcome classes are taken on every transition: a history in which a waiter fired is always
+        # merged into a shorter one without that waiter, so new-state callbacks alone would not see them
+        for f in st.flags:
+            stats.outcome(f)
         return list(st.bad)
 
     def on_state(st, hist):
         if st.waiters or st.retry_tf is not None or st.stops or st.abandoned or (
                 st.cur is not None and st.cur.stage in ("prep", "closing")):
             stats.nt((key, canon(st)))
-        for f in st.flags:
-            stats.outcome(f)
 
     res = bfs(lambda: St(cfg), apply, enabled, canon, inv, depth, on_state=on_state, max_violations=100000)
     stats.add_bfs(res, {"config": cfg})
